@@ -219,7 +219,7 @@ Print Assumptions sem_permute_poly_partial.
 
 (** * The operator-level part of C18 for EVERY permutation, and the observables
 
-    Added after the block above (which is kept unchanged).  The two gaps named there are closed as follows.
+    Added after the block above (whose statements are kept unchanged).  The two gaps named there are closed as follows.
     (1) "every permutation is a product of adjacent transpositions":
         [perm_is_product_of_adjacent_transpositions]; [index_perm_perm_on] shows that the pi of
         [rename_is_mode_permutation] (relabelling, re-ordering the addSite calls, switching the ordering
